@@ -129,7 +129,7 @@ func pathTo(parent map[*FuncInfo]*FuncInfo, f *FuncInfo) string {
 }
 
 // hasDeferredRecover reports whether the function body defers a function literal that calls recover().
-func hasDeferredRecover(info *types.Info, fi *FuncInfo) bool {
+func (p *Program) hasDeferredRecover(info *types.Info, fi *FuncInfo) bool {
 	found := false
 	ast.Inspect(fi.Decl.Body, func(n ast.Node) bool {
 		d, ok := n.(*ast.DeferStmt)
@@ -142,6 +142,39 @@ func hasDeferredRecover(info *types.Info, fi *FuncInfo) bool {
 			}
 			return true
 		})
+		// defer handler(&err): a named function that calls recover() itself (recover only works when called
+		// directly by the deferred function)
+		if h := p.deferredHandler(info, d); h != nil && callsRecoverDirectly(h) {
+			found = true
+		}
+		return true
+	})
+	return found
+}
+
+// deferredHandler: the package function a defer statement calls directly (not through a literal).
+func (p *Program) deferredHandler(info *types.Info, d *ast.DeferStmt) *FuncInfo {
+	if _, isLit := ast.Unparen(d.Call.Fun).(*ast.FuncLit); isLit {
+		return nil
+	}
+	fn := calleeOf(info, d.Call)
+	if fn == nil {
+		return nil
+	}
+	h := p.FuncOf(fn)
+	if h == nil || h.Decl.Body == nil {
+		return nil
+	}
+	return h
+}
+
+// callsRecoverDirectly: recover() appears in h's own body, outside function literals.
+func callsRecoverDirectly(h *FuncInfo) bool {
+	found := false
+	inspectNoLit(h.Decl.Body, func(n ast.Node) bool {
+		if c, ok := n.(*ast.CallExpr); ok && calleeName(h.Pkg.TypesInfo, c) == "builtin.recover" {
+			found = true
+		}
 		return true
 	})
 	return found
